@@ -439,13 +439,14 @@ class PlanJoinTablesQuery:
 
         columns_map = {}
 
-        def _check_conditions(node, **kwargs):
-            if not isinstance(node, BinaryOperation):
-                return
+        # only an equality that is a top-level conjunct of the join condition maps columns
+        for node in self.get_conjuncts(model_table.join_condition):
+            if not isinstance(node, BinaryOperation) or node.op != '=':
+                continue
 
             arg1, arg2 = node.args
             if not (isinstance(arg1, Identifier) and isinstance(arg2, Identifier)):
-                return
+                continue
 
             table1 = self.get_table_for_column(arg1)
             table2 = self.get_table_for_column(arg2)
@@ -458,12 +459,11 @@ class PlanJoinTablesQuery:
                 columns_map[arg2.parts[-1]] = arg1
             else:
                 # not found, skip
-                return
+                continue
 
             # exclude condition
             node.args = [Constant(0), Constant(0)]
 
-        query_traversal(model_table.join_condition, _check_conditions)
         return columns_map
 
     def get_filters_from_join_conditions(self, fetch_table):
